@@ -263,7 +263,7 @@ func (ld *Loaded) runInits() error {
 
 func newCtx(ld *Loaded) *Ctx {
 	return &Ctx{ld: ld, objCounter: ld.baseObjN + 1000, replace: map[string]*ssa.Function{}, maxUnroll: 5000,
-		encoded: map[string]int{}, secret: map[string]bool{}, contractUse: map[string]int{}, asmFuncs: ld.asmFuncsOrNil()}
+		encoded: map[string]int{}, secret: map[string]bool{}, contractUse: map[string]int{}, asmFuncs: ld.asmFuncsOrNil(), asserted: map[*Term]bool{}}
 }
 
 func atoiDef(s string, d int) int {
